@@ -83,7 +83,7 @@ func checkC03(c *hx.Checker) {
 		"Operator API route everywhere, single-node Model.Run route on the rank<=2 sub-box. non-trivial = shapes differ (some axis stretched/padded) or special-value pair case; " +
 		"integer division by zero and MIN/-1 excluded (ONNX-undefined)"
 	c.Assumptions = []string{"reference: Go native float32/float64/intN arithmetic per element (IEEE-754 single operation, wrap-around, truncating division)",
-		"ordering comparisons on bool/complex/string are not defined by ONNX: only 'no panic' is asserted there", "mixed operand dtypes are outside the statement"}
+		"ordering comparisons on bool/complex/string are not defined by ONNX: only 'no panic' is asserted there", "mixed operand dtypes are outside the statement, except float32 against float64 in comparisons: refused, or decided on the values held"}
 	var jobs []opJob
 	addCase := func(op string, a, b *ref.T, route string, nt bool, extra ...string) {
 		exp, err := ref.Binary(op, a, b)
@@ -127,6 +127,8 @@ func checkC03(c *hx.Checker) {
 			{{1025}, {1025}}, {{1027}, {1}}, {{}, {1029}}, {{1, 205}, {5, 1}}, {{4099}, {4099}}, {{3, 1367}, {1367}}, {{32771}, {32771}}, {{65539}, {1}}, {{7, 1, 9363}, {1, 1, 9363}},
 			// and exact multiples of the usual block sizes (a remainder computed as n % block is 0 there)
 			{{2048}, {2048}}, {{64, 64}, {64, 64}}, {{8192}, {1}}, {{2, 32768}, {32768}}, {{65536}, {65536}}, {{3, 4096}, {3, 1}},
+			// a small FIRST operand stretched to a large result (the stretched copy is private to the call: tempting to reuse)
+			{{1}, {20000}}, {{}, {16384}}, {{3, 1}, {3, 7000}}, {{1, 1}, {130, 131}}, {{2, 1, 1}, {2, 96, 96}},
 			// per-channel and per-sample partners of feature maps (N,C,H,W)
 			{{2, 3, 8, 8}, {2, 3, 1, 1}}, {{2, 3, 8, 8}, {3, 1, 1}}, {{2, 3, 8, 8}, {1, 3, 1, 1}}, {{2, 3, 8, 8}, {2, 1, 1, 1}}, {{2, 3, 9, 11}, {2, 3, 1, 1}}, {{2, 3, 8, 8}, {3, 3, 1, 1}}, {{2, 3, 1, 1}, {2, 3, 8, 8}}} {
 			addCase(op, binaryFill(main, lp[0], 1), binaryFill(main, lp[1], 4), "op", true, "large")
@@ -280,6 +282,45 @@ func checkC03(c *hx.Checker) {
 			if !(op == "Div") {
 				addCase(op, &ref.T{DT: dt, Shape: []int{n, 1}, V: alpha}, &ref.T{DT: dt, Shape: []int{1, n}, V: alpha}, "op", true, "special-values", "outer")
 			}
+		}
+	}
+	// comparisons of a float32 with a float64 operand (no ONNX type, refused on the pinned tree): refused, or decided on
+	// the VALUES the operands hold - 0.1f is larger than 0.1, 16777216f is larger than 16777215.5
+	for _, op := range []string{"Greater", "Less", "GreaterOrEqual", "LessOrEqual", "Equal"} {
+		for _, f32First := range []bool{true, false} {
+			xs := []float64{0.1, 16777216, -0.1, 1, 3.0000001, 1e-46, 0.5}
+			ys := []float64{0.1, 16777215.5, -0.1, 1, 3, 0, 0.5000000001}
+			a := ref.FromF(ref.F32, []int{len(xs)}, xs...)
+			b := ref.FromF(ref.F64, []int{len(ys)}, ys...)
+			exp := ref.New(ref.Bool, len(xs))
+			for i := range xs {
+				l, r := a.F(i), b.F(i)
+				if !f32First {
+					l, r = r, l
+				}
+				var v bool
+				switch op {
+				case "Greater":
+					v = l > r
+				case "Less":
+					v = l < r
+				case "GreaterOrEqual":
+					v = l >= r
+				case "LessOrEqual":
+					v = l <= r
+				case "Equal":
+					v = l == r
+				}
+				if v {
+					exp.V[i] = 1
+				}
+			}
+			ins := tjs(a, b)
+			if !f32First {
+				ins = tjs(b, a)
+			}
+			oc := &hx.OpCase{Op: op, Inputs: ins, NOut: 1, Route: "op"}
+			jobs = append(jobs, opJob{id: fmt.Sprintf("%s/mixed-float32-float64/f32first=%v", op, f32First), tags: []string{"op=" + op, "mixed-float-types", "domain=" + string(hx.DRefuse)}, nt: true, oc: oc, dom: hx.DRefuse, exp: []*ref.T{exp}, cmp: hx.Bits})
 		}
 	}
 	runOpJobs(c, jobs)
